@@ -25,6 +25,9 @@ struct Opts {
     budget_add: u64,
     /// permute case order per thread and lex every case on every thread (C19)
     all_on_all: bool,
+    /// single-threaded: copy every source into one reused buffer before lexing it, so that consecutive
+    /// sources live at the same address (a call history of a caller that reuses its read buffer, C19)
+    reuse: bool,
 }
 
 fn parse_args() -> Opts {
@@ -37,6 +40,7 @@ fn parse_args() -> Opts {
         budget_mul: 64,
         budget_add: 256,
         all_on_all: false,
+        reuse: false,
     };
     let mut it = std::env::args().skip(1);
     while let Some(a) = it.next() {
@@ -49,6 +53,7 @@ fn parse_args() -> Opts {
             "--budget-mul" => o.budget_mul = it.next().expect("n").parse().expect("int"),
             "--budget-add" => o.budget_add = it.next().expect("n").parse().expect("int"),
             "--all-on-all" => o.all_on_all = true,
+            "--reuse" => o.reuse = true,
             other => {
                 eprintln!("unknown argument {other}");
                 std::process::exit(2);
@@ -642,8 +647,16 @@ fn main() {
 
     if opts.threads <= 1 {
         let mut w = out.lock().unwrap();
+        let cap = cases.iter().map(|c| c.1.len()).max().unwrap_or(0) + 16;
+        let mut buf = String::with_capacity(cap);
         for (id, src, meta) in cases.iter() {
-            let v = run_case(id, src, &opts, meta);
+            let v = if opts.reuse {
+                buf.clear();
+                buf.push_str(src);
+                run_case(id, &buf, &opts, meta)
+            } else {
+                run_case(id, src, &opts, meta)
+            };
             serde_json::to_writer(&mut *w, &v).unwrap();
             w.write_all(b"\n").unwrap();
         }
